@@ -16,7 +16,7 @@ to a query line is `q ok <answer>` / `q err` (see `docs/COMPOSITE_COLLECTION.md`
 * `raw v=<variant> …`  a message variant the model does not know: refused, nothing changes
 * `migrate_upd` · `migrate_self` · `setver v=<a.b.c>` · `setlegacy a=<id|->`
 * queries: `q_owner_of id= ie=` · `q_approval id= sp= ie=` · `q_approvals id= ie=` · `q_operators owner= ie= after= limit=` ·
-  `q_nft_info id=` · `q_all_nft_info id= ie=` · `q_tokens owner= after= limit=` · `q_all_tokens after= limit=` · `q_upd` ·
+  `q_nft_info id=` · `q_all_nft_info id= ie=` · `q_tokens owner= after= limit=` · `q_all_tokens after= limit=` · `q_upd` · `q_ownership` ·
   `q_payout pay= fee= fin=<n|->`
 -/
 open LP LP.Proto LP.CF
@@ -208,6 +208,9 @@ def runQuery (d : Drv) (ws : List String) : Option String :=
       pure (qAns (qTokens c (← natKv ws "owner") (← optNatKv ws "after") (← optNatKv ws "limit")) renderNats)
     | some "q_all_tokens" => do
       pure ("q ok " ++ renderNats (qAllTokens c (← optNatKv ws "after") (← optNatKv ws "limit")))
+    | some "q_ownership" =>
+      some (qAns (qOwnership c) fun o =>
+        s!"{renderOpt o.owner}/{renderOpt o.pending}/{match o.pendingExpiry with | some e => expStr e | none => "-"}")
     | some "q_upd" =>
       match qEnableUpdatable c, qFrozenTokenMetadata c, qEnableUpdatableFee c with
       | .ok e, .ok f, .ok fee => some s!"q ok e={b01 e} f={b01 f} fee={fee}"
